@@ -98,6 +98,18 @@ def make_event(spec, prob):
         g.requires_dstate = True
     else:
         raise KeyError(kind)
+    ret = spec.get("ret", "0d")
+    if ret != "0d":
+        # what an event function hands back: a python float, or a one-element array (what `y[:1] - level` gives)
+        g0 = g
+        conv = (lambda v: float(v)) if ret == "float" else (lambda v: np.reshape(v, (1,)))
+        if kind == "dstate":
+            def g(t, y, dy, **kw):
+                return conv(g0(t, y, dy, **kw))
+            g.requires_dstate = True
+        else:
+            def g(t, y, **kw):
+                return conv(g0(t, y, **kw))
     g.direction = spec.get("dir", 0)
     g.is_terminal = bool(spec.get("terminal", False))
     g.spec = spec
@@ -296,6 +308,19 @@ def cells(quick):
                                     if abs(span[0]) > 30:
                                         # single precision far from the origin: one unit in the last place of t is 4e-6, the coarsest time axis in the alphabet
                                         out.append(dict(problem=pname, span=list(span), dt0=dt0, method=m, dense=dense, dtype="float32", events=evs, tol=1e-4))
+    # per-event attributes that DIFFER inside one list: requested directions (+1, -1, 0 in every rotation) and what the functions hand back
+    # (0-d arrays, python floats, one-element arrays)
+    for pname, spans, dt0 in (("lin", LIN_SPANS, 0.5), ("osc", OSC_SPANS, 0.25)):
+        for span, taus in list(spans.items())[:4] if quick else spans.items():
+            for es in [e_ for e_ in event_sets(pname, taus, False) if len(e_) >= 2][:(6 if quick else None)]:
+                for rot in (0, 1, 2):
+                    for rets in (("1el",), ("1el", "0d", "float"), ("float",), ("0d",)):
+                        for m in METHODS:
+                            for dense in (True, False):
+                                if quick and (dense != (rot % 2 == 0) or (rets == ("float",) and rot)):
+                                    continue
+                                evs = [dict({k_: v_ for k_, v_ in e.items() if k_ != "smul"}, s=e.get("smul", 1.0), dir=(1, -1, 0)[(i + rot) % 3], ret=rets[i % len(rets)]) for i, e in enumerate(es)]
+                                out.append(dict(problem=pname, span=list(span), dt0=dt0, method=m, dense=dense, dtype="float64", events=evs, tol=1e-8))
     # a crossing at or next to the end point of one integrate() call and the start of the next ('no crossing is reported twice', over successive calls)
     for pname, spans, dt0 in (("lin", LIN_SPANS, 0.5), ("osc", OSC_SPANS, 0.25)):
         for span, taus in list(spans.items())[:3] + ([] if quick else list(spans.items())[4:6]):
